@@ -760,7 +760,9 @@ def load_corpus():
     if os.path.isdir(d):
         for f in sorted(os.listdir(d)):
             if f.endswith('.json'):
-                out.append(json.load(open(os.path.join(d, f)))['input'])
+                inp = json.load(open(os.path.join(d, f)))['input']
+                if inp.get('kind') != 'cli-builds':   # those are always run by cli_build_sessions
+                    out.append(inp)
     return out
 
 
@@ -796,9 +798,85 @@ def run(ck):
     par += [gen_scenario(ck.rng, parallel=True) for _ in range(n_par)]
     for i in range(0, len(par), 100):
         check_batch(ck, par[i:i + 100], base_idx=idx + i)
+    cli_build_sessions(ck, not quick)
     ck.exhaustive = False
 
 
+# ------------------------------------------------------------------ real CLI, real build scripts
+ASCII_LOCALE = {'LC_ALL': 'C', 'PYTHONUTF8': '0', 'PYTHONCOERCECLOCALE': '0'}
+NON_ASCII_PRINTF = "printf '\\342\\234\\223 built \\342\\206\\222 caf\\303\\251\\n'"
+
+
+def cli_build_sessions(ck, thorough):
+    """the real CLI in a child process with real /bin/sh build scripts: whatever the locale of the
+    process and whatever the scripts print (non-ASCII characters like many build tools do), every
+    build runs once, a failing build keeps its runs from starting, is reported (exit status 1, no
+    traceback), and independent runs proceed. Sequential and (on this multi-core machine) parallel."""
+    import drive_config
+    scen = []
+    for (locale, out, bad, par) in [('ascii', 'non-ascii', False, True), ('ascii', 'non-ascii', True, False),
+                                    ('ascii', 'non-ascii', False, False), ('utf8', 'non-ascii', True, True),
+                                    ('ascii', 'ascii', True, False)] + \
+            ([(l, o, b, p) for l in ('ascii', 'utf8') for o in ('ascii', 'non-ascii') for b in (False, True)
+              for p in (False, True)] if thorough else []):
+        scen.append({'locale': locale, 'output': out, 'bad_executor_build': bad, 'parallel': par})
+    for i, sc in enumerate(scen):
+        wd = os.path.join(ck.scratch, 'cli%d' % i)
+        sdir = os.path.join(wd, 'suite')
+        os.makedirs(sdir)
+        for v in ('G', 'B'):
+            path = os.path.join(sdir, 'vm%s.sh' % v)
+            with open(path, 'w') as f:
+                f.write('#!/bin/sh\necho "%s $1" >> %s/runs.log\necho 1.0\n' % (v, wd))
+            os.chmod(path, 0o755)
+        say = NON_ASCII_PRINTF if sc['output'] == 'non-ascii' else "echo built ok"
+        cfg = {'default_data_file': 'cli.data', 'build_log': 'build.log',
+               'runs': {'invocations': 1, 'execute_exclusively': not sc['parallel']},
+               'benchmark_suites': {'S': {'gauge_adapter': 'PlainSecondsLog', 'location': sdir, 'command': '%(benchmark)s',
+                                          'build': ['echo built >> %s/S.count' % wd, say],
+                                          'benchmarks': ['b1', 'b2', 'b3', 'b4']}},
+               'executors': {'Good': {'path': sdir, 'executable': 'vmG.sh',
+                                      'build': ['echo built >> %s/Good.count' % wd, say]}},
+               'experiments': {'All': {'suites': ['S'], 'executions': ['Good']}}}
+        if sc['bad_executor_build']:
+            cfg['executors']['Bad'] = {'path': sdir, 'executable': 'vmB.sh',
+                                       'build': ['echo built >> %s/Bad.count' % wd, say, say + ' >&2', 'exit 1']}
+            cfg['experiments']['All']['executions'].append('Bad')
+        conf = drive.write_config(wd, cfg)
+        r = drive_config.run_cli(wd, [conf], ASCII_LOCALE if sc['locale'] == 'ascii' else {'LC_ALL': 'C.UTF-8'})
+        ck.impl_traces += 1
+
+        def count(name):
+            p = os.path.join(wd, name)
+            return len(open(p).read().split('\n')) - 1 if os.path.exists(p) else 0
+        runs = open(os.path.join(wd, 'runs.log')).read().split('\n')[:-1] if os.path.exists(os.path.join(wd, 'runs.log')) else []
+        obs = {'exit': r.exit, 'traceback': r.crash[0] if r.crash else None,
+               'build_counts': {b: count(b + '.count') for b in ('S', 'Good', 'Bad')}, 'benchmark_starts': sorted(runs)}
+        inp = dict(sc, kind='cli-builds', config=cfg)
+        ck.count('cli-builds:%s/%s/%s/%s' % (sc['locale'], sc['output'], 'bad' if sc['bad_executor_build'] else 'ok',
+                                            'parallel' if sc['parallel'] else 'batch'))
+        ck.case(nontrivial_key=('cli-builds', json.dumps(sc, sort_keys=True)), sample={'scenario': sc, 'observed': obs})
+        sig = {'locale': sc['locale'], 'build_output': sc['output']}
+        if r.crash:
+            ck.oracle_fail('no_traceback', inp, dict(obs, stderr=r.stderr[-600:]),
+                           signature=dict(sig, clause='no_traceback', exception=r.crash[0], session='cli'))
+        want = {'S': 1, 'Good': 1, 'Bad': 1 if sc['bad_executor_build'] else 0}
+        for b, n in obs['build_counts'].items():
+            if n > 1 or (n != want[b] and not r.crash):
+                ck.oracle_fail('once', inp, dict(obs, build=b, expected=want[b]),
+                               signature=dict(sig, clause='once', scheduler='parallel' if sc['parallel'] else 'sequential', session='cli'))
+        if any(x.startswith('B ') for x in runs):
+            ck.oracle_fail('failure_no_start', inp, obs, signature=dict(sig, clause='failure_no_start', session='cli'))
+        if sorted(x for x in runs if x.startswith('G ')) != ['G b1', 'G b2', 'G b3', 'G b4']:
+            ck.oracle_fail('independent_proceeds', inp, dict(obs, stderr=r.stderr[-300:]),
+                           signature=dict(sig, clause='independent_proceeds', session='cli'))
+        if not r.crash and r.exit != (1 if sc['bad_executor_build'] else 0):
+            ck.oracle_fail('failure_exit', inp, obs, signature=dict(sig, clause='failure_exit', session='cli'))
+
+
 def replay(ck, data):
+    if data['input'].get('kind') == 'cli-builds':
+        cli_build_sessions(ck, False)
+        return
     inp = data['input']
     check_batch(ck, [inp], base_idx=0, search=False)
